@@ -2,6 +2,7 @@ package main
 
 import (
 	"fmt"
+	"math/big"
 	"go/types"
 
 	"golang.org/x/tools/go/ssa"
@@ -23,7 +24,23 @@ func (e *Engine) harnessAPI2(name string, args []Value, fn *ssa.Function) (Value
 		e.primLog = e.primLog[:n] // oracle calls are not logged as implementation calls
 		return v, true
 	case "vECKeyValid":
-		return e.mkECKey(e.argStr(args[0]), curveNameOf(args[1])), true
+		// a genuine key pair: (X, Y) is the public point of D (uninterpreted scalar multiplication)
+		cn := curveNameOf(args[1])
+		p := e.mkECKey(e.argStr(args[0]), cn)
+		priv := e.load(p).(*StructV)
+		pub := priv.fields[0].(*StructV)
+		kc, kx, ky := e.ecKeyTerms(pub)
+		d, _ := e.bigOf(priv.fields[1])
+		d528 := e.tt.ZExt(d.mag, 528)
+		e.addPC(e.tt.And(e.tt.Eq(e.tt.UF("pubX", 528, kc, d528), kx), e.tt.Eq(e.tt.UF("pubY", 528, kc, d528), ky), e.tt.UF("onCurve", 0, kc, kx, ky)))
+		// counterexample models should need at most one leading zero byte per coordinate (the native replay searches for such a key)
+		full := (realCurve(cn).Params().P.BitLen() + 7) / 8
+		w := d.mag.w
+		low := e.tt.BV(new(big.Int).Lsh(big.NewInt(1), uint(8*(full-2))), w)
+		for _, nd := range e.nondets[len(e.nondets)-3 : len(e.nondets)-1] { // X, Y
+			nd.Prefer = append(nd.Prefer, e.tt.Cmp("bvule", low, nd.Term))
+		}
+		return p, true
 	case "vEcdsaSign":
 		r, s, _ := e.ecdsaSignOK(args[0].(PtrV), args[1].(BytesV))
 		return TupleV{r, s}, true
@@ -39,7 +56,20 @@ func (e *Engine) harnessAPI2(name string, args []Value, fn *ssa.Function) (Value
 		return p, true
 	case "vUTF8":
 		return e.utf8ValidOf(args[0].(StrV).r), true
-	case "vRand":
+	case "vInterleaved":
+		// the solver side runs the bodies one after the other: what makes the interleavings equivalent is decided
+		// by the frame condition (no writes to shared state) and the sync.Pool model; natively they run as goroutines
+		for _, a := range args {
+			if sl, ok := a.(SliceV); ok {
+				for i := 0; i < sl.n; i++ {
+					e.callFuncV(sl.obj.elems[sl.off+i].(*FuncV), nil)
+				}
+				continue
+			}
+			e.callFuncV(a.(*FuncV), nil)
+		}
+		return nil, true
+	case "vRand", "vYieldRand":
 		return Iface{typ: e.fake("rand"), val: OpaqueV{kind: "rand"}}, true
 	case "vEdVerdict":
 		n := len(e.primLog)
